@@ -10,7 +10,7 @@ RULE = ("A: files of the conforming/violating families analysed under a test-sid
         "number of logical statements of the model, no unrecognised pop, every statement starts at column 1 of a line and ends with a "
         "newline (or the end of input), scope is the file scope after each function and at the end.  B: a self-delimiting unrecognisable "
         "fragment (42; 1.5; \"s\"; 'c'; ]; ); ->; ..;) inserted as a correctly indented line at a statement boundary, or as the last line "
-        "with/without ';' and final newline: at a closed boundary the run is fatal (CLI: Error! block naming the file, exit != 0), at an "
+        "with/without ';' and final newline, and behind a complete preprocessor directive on its own line: at a closed boundary the run is fatal (CLI: Error! block naming the file, exit != 0), at an "
         "open boundary the file is at least never OK!; never stray output.  non-trivial A = program with >=1 nested block and >=1 "
         "continuation line; B = every (fragment, boundary) pair; distinct by SHA-1 of the text")
 
@@ -171,6 +171,14 @@ def oracle_b(camp, p, d, per_prog, cli_every, state, avoid_line=None, tag="confo
             q = p.copy()
             q.lines.insert(i, Line(TABS(depth) + [Lx(frag, "garbage")], "garbage", depth, -1))
             judge(camp, p.name, q.text, frag, cls, closed, "mid", state, cli_every)
+    # a fragment behind a complete preprocessor directive, on its line (a macro body and #pragma are free-form: left out)
+    dl = [i for i, ln in enumerate(p.lines) if ln.kind in ("include", "ifndef", "endif", "ppelse", "undef") and ln.lex and not any(x.k == "cmt" for x in ln.lex)
+          and i >= 12 and not (p.variant and p.variant[2] == i)]
+    for i in ([dl[d.int(0, len(dl) - 1)]] if dl and per_prog else dl[:6]):
+        frag = d.choice(FRAGMENTS)
+        q = p.copy()
+        q.lines[i].lex += [Lx(" ", "sp"), Lx(frag, "garbage")]
+        judge(camp, p.name, q.text, frag, "directive-tail:" + p.lines[i].kind, True, "directive", state, cli_every)
     if avoid_line is not None:
         return
     # last line variants
